@@ -140,6 +140,23 @@ async def subscription_case(ctx, prefixes: tuple[str, str]) -> None:
         await transport.disconnect()
     except Exception as exc:  # noqa: BLE001
         ctx.violation("disconnect-raises", f"{type(exc).__name__}", case)
+    # every connect subscribes (a new broker session starts without subscriptions)
+    for session in (2, 3):
+        transport.subscribed.clear()
+        try:
+            await transport.connect()
+        except Exception as exc:  # noqa: BLE001
+            ctx.violation("reconnect-failed", f"connect #{session} raised {type(exc).__name__}", case)
+            return
+        ctx.clause("subscriptions-after-reconnect")
+        for cmd in range(5):
+            topic = f"{in_prefix}/3/255/{cmd}/0/1"
+            if not any(topic_matches_sub(sub, topic) for sub, _qos in transport.subscribed):
+                ctx.violation("subscription-misses-topic",
+                              f"connect #{session} on the same transport object subscribed only {transport.subscribed}: nothing "
+                              f"matches {topic!r} (a new broker session has no subscriptions, the transport would be deaf)", case)
+                return
+        await transport.disconnect()
 
 
 async def fifo_case(ctx, script: list) -> None:
